@@ -27,6 +27,8 @@ def run(ctx):
                       "Signal variant of the same meaning (hangup->Hangup, interrupt->Interrupt, quit->Quit, terminate->Terminate, usr1->User1, usr2->User2)")
     ctx.rule("R01.7", "the collector gives up (Ok(None), which ends the action worker) only when the event queue is closed: every such return "
                       "follows a true events.is_closed() test or a recv() error")
+    ctx.rule("R01.9", "fs event shape: every event built by process_event carries the notify kind as Tag::FileEventKind(nev.kind) and one "
+                      "Tag::Path{path: normalize(path)} per path of the notify event, and exactly that event is queued")
     ctx.rule("R01.8", "wiring: the main task starts when Watchexec::main() notifies the start lock it waits on, and spawns the action worker on the "
                       "receiving end of the event queue, the fs / signal / keyboard sources on its sending end, and error_hook on the error queue")
     ctx.rule("R01.5", "no silent loss at the sources: a failed send/try_send of an event is reported on the error channel")
@@ -106,6 +108,36 @@ def run(ctx):
                             "Ok(None) is returned only after the queue was seen closed", f.loc(f.line), detail=pathx.show_events(q.ev)[-300:],
                             fail="throttle_collect returns Ok(None) - which ends the action worker and with it event delivery - while the event queue is open")
         ctx.floor("R01.7", "Ok(None) return paths of throttle_collect", n_none, 3)
+    except Skip:
+        pass
+
+    # ---- R01.9 shape of filesystem events
+    try:
+        pe = ctx.anchor_fn("R01.9", "watchexec::sources::fs::process_event")
+        want_calls = ("Vec::push", "Sender::try_send", "Sender::send")
+        ps = pathx.Enum(interesting=lambda d: any(strip_generics(d).endswith(x) for x in want_calls)).paths(thir.root(pe))
+        n_ok = 0
+        for q in ps:
+            sends = [e for e in q.ev if e[0] == "call" and strip_generics(e[1]).split("::")[-1] in ("try_send", "send")]
+            if not sends:
+                continue        # the notify error path (returns before an event exists)
+            n_ok += 1
+            top = [[pathx.desc(a) for a in e[2]["a"]] for e in q.ev if e[0] == "call" and strip_generics(e[1]).endswith("Vec::push")]
+            loops = [e for e in q.ev if e[0] == "loop"]
+            inloop = [[pathx.desc(a) for a in x[2]["a"]] for e in loops for it in e[1] for x in it if x[0] == "call" and strip_generics(x[1]).endswith("Vec::push")]
+            has_kind = ["tags", "FileEventKind{0: nev.kind}"] in top
+            path_ok = len(loops) == 1 and loops[0][2] == "for nev.paths" and len(inloop) == 1 and inloop[0][0] == "tags" and inloop[0][1].startswith("Path{") \
+                and "path: NormalizePath::normalize(path)" in inloop[0][1]
+            sent = [pathx.desc(a) for a in sends[0][2]["a"]]
+            ctx.require(has_kind, "R01.9", "kind-tag", "the event carries the notify kind", pe.loc(pe.line), detail=str(top)[:300],
+                        fail="process_event no longer tags the event with FileEventKind(nev.kind): kind filters, the path summary and the action see a kind-less event")
+            ctx.require(path_ok, "R01.9", "path-tags", "one normalised Path tag per notify path", pe.loc(pe.line), detail=str(inloop)[:300],
+                        fail="process_event no longer adds exactly one Tag::Path (normalised) per path of the notify event")
+            ctx.require(len(sends) == 1 and sent[1] == "ev", "R01.9", "sends-built-event", "the event built from the tags is the one queued", pe.loc(pe.line), detail=str(sent))
+        ctx.floor("R01.9", "event-producing paths of process_event", n_ok, 4)
+        evs = [n for n in thir.find(thir.root(pe), "adt") if n.get("adt", "").endswith("event::Event")]
+        okv = len(evs) == 1 and sorted((k, pathx.desc(v)) for k, v in evs[0]["f"]) == [("metadata", "metadata"), ("tags", "tags")] if evs else False
+        ctx.require(okv, "R01.9", "event-from-tags", "ev = Event { tags, metadata }", pe.loc(pe.line))
     except Skip:
         pass
 
